@@ -124,7 +124,9 @@ func c19Exec(c *Ctx, cs c19Case) (outcome string) {
 	json.Unmarshal(cs.Doc, &sw2)
 	err = spec.ExpandSpec(&sw2, &spec.ExpandOptions{RelativeBase: "file:///r/s/root.json", PathLoader: func(p string) (json.RawMessage, error) {
 		if p == "file:///r/s/ext.json" {
-			return json.RawMessage(`{"definitions":` + c19Defs + `,"parameters":` + c19Params + `,"responses":` + c19Resps + `}`), nil
+			// (a3 / r3: aliases inside the external document, under names the root uses for its own aliases)
+			return json.RawMessage(`{"definitions":` + c19Defs + `,"parameters":` + c19Params + `,"responses":` + c19Resps +
+				`,"x-parameters":{"a2":{"$ref":"#/x-parameters/a3"},"a3":{"$ref":"#/parameters/a"}},"x-responses":{"r2":{"$ref":"#/x-responses/r3"},"r3":{"$ref":"#/responses/a"}}}`), nil
 		}
 		return nil, fmt.Errorf("no such external document in this check: %s", p)
 	}})
@@ -228,6 +230,12 @@ func c19Run(c *Ctx) {
 			`{"swagger":"2.0","info":{"title":"t","version":"1"},"paths":{"/p":{"parameters":[{"$ref":"`+pre+`#/parameters/a"}],"get":{"parameters":[{"$ref":"`+pre+`#/parameters/b"}],"responses":{"200":{"$ref":"`+pre+`#/responses/a"},"default":{"description":"","schema":{"$ref":"`+pre+`#/definitions/a~1b"}}}}}}}`,
 			`{"swagger":"2.0","info":{"title":"t","version":"1"},"paths":{},"responses":{"r2":{"$ref":"`+pre+`#/responses/a"}},"parameters":{"p2":{"$ref":"`+pre+`#/parameters/a"},"p3":{"$ref":"`+pre+`#/parameters/b"}},"definitions":{"d2":{"$ref":"`+pre+`#/definitions/a"}}}`)
 	}
+	// chains of aliases: names that differ by letter case only; a hop in the external document that reads like the
+	// hop that led there
+	extras = append(extras,
+		// (aliases are only valid inside vendor extensions: the definitions sections hold no reference objects)
+		`{"swagger":"2.0","info":{"title":"t","version":"1"},"x-parameters":{"Limit":{"$ref":"#/x-parameters/limit"},"limit":{"$ref":"#/parameters/a"}},"x-responses":{"Gone":{"$ref":"#/x-responses/gone"},"gone":{"$ref":"#/responses/a"}},"paths":{"/p":{"get":{"parameters":[{"$ref":"#/x-parameters/Limit"}],"responses":{"410":{"$ref":"#/x-responses/Gone"}}}}}}`,
+		`{"swagger":"2.0","info":{"title":"t","version":"1"},"x-parameters":{"a2":{"$ref":"#/x-parameters/a3"},"a3":{"$ref":"ext.json#/x-parameters/a2"}},"x-responses":{"r2":{"$ref":"#/x-responses/r3"},"r3":{"$ref":"ext.json#/x-responses/r2"}},"paths":{"/p":{"get":{"parameters":[{"$ref":"#/x-parameters/a2"}],"responses":{"200":{"$ref":"#/x-responses/r2"}}},"put":{"parameters":[{"$ref":"#/x-parameters/a3"}],"responses":{"200":{"$ref":"#/x-responses/r3"}}}}}}`)
 	// optional members present but empty, false or zero (what the encoder is free to drop must not be required)
 	for _, flow := range []string{`"flow":"implicit","authorizationUrl":"http://a"`, `"flow":"password","tokenUrl":"http://t"`, `"flow":"application","tokenUrl":"http://t"`, `"flow":"accessCode","authorizationUrl":"http://a","tokenUrl":"http://t"`} {
 		extras = append(extras, `{"swagger":"2.0","info":{"title":"t","version":"1"},"paths":{},"securityDefinitions":{"o":{"type":"oauth2",`+flow+`,"scopes":{}}}}`)
